@@ -277,6 +277,27 @@ EXTRA6 = {
 }
 
 
+# clauses added in round 7 (two cooperating sites) and with the sixth refactoring batch / the metamorphic self-test (DESIGN.md 11.18 - 11.20)
+EXTRA7 = {
+    "C01": "Round 7: the parentheses of an expression taken from the source are never stripped.",
+    "C03": "Round 7: the merge loop never asks an iterator for more after it raised (a generator that raised is finished); new manifest lines are placed after a terminated line (found and repaired a genuine defect in the setup.cfg writer: fixed entry 0d3dc4d).",
+    "C05": "Round 7: the project listing applies kind tests only (no name- or path-based filter); nothing one codemod recorded is read while another runs.",
+    "C06": "Round 7: the findings lookup answers for exactly one line and once per result.",
+    "C08": "Round 7: detector positions are never taken from a scan that pre-dates an earlier rewrite.",
+    "C10": "Round 7: no iterator is resumed after it raised; what an earlier codemod recorded is not read while a later one runs.",
+    "C11": "Round 7: every Finding owns its Rule (sibling-file independence of the report); semgrep gets the selected files, not the directory; loops over identity-hashed node sets do not record change entries (found and repaired a genuine defect in unused-imports: fixed entry a7a5b29).",
+    "C12": "Round 7: value-based de-duplication in the result path only while results are compared by all fields; the project listing applies kind tests only.",
+    "C13": "Round 7: path patterns reach file_line_patterns verbatim.",
+    "C14": "Round 7: a guarded text-mode manifest read also catches decoding errors; no computed-key store over a parsed manifest entry; new lines go after a terminated line (fixed entry 0d3dc4d).",
+    "C15": "Round 7: the regex pipelines record a change exactly for the lines they edited.",
+    "C16": "Round 7: per-file findings reach the transformer unfiltered; the text parsed is the text written back.",
+    "C17": "Round 7: the parsed command line is read-only in run() (no option list is pruned in place by a helper before the eligibility mode is derived from it); the project listing applies kind tests only.",
+    "C18": "Round 7: nothing an earlier codemod recorded about a file is read while a later one runs.",
+    "C19": "Round 7: the findings lookup answers once per result.",
+    "C20": "Round 7: a one-shot iterator is consumed once (the existence loop sees every result file); a guarded manifest read also catches decoding errors; --max-workers reaches the pool only validated or clamped.",
+}
+
+
 def main():
     props = [json.loads(l)["id"] for l in (VERIF / "properties.jsonl").read_text().splitlines() if l.strip()]
     checks = []
@@ -292,7 +313,7 @@ def main():
                 "evidence_file": f"evidence/{pid}.json",
                 "replay_cmd_template": f"/venv/bin/python sa/run.py {pid} --replay {{path}}",
                 "engine": "sa",
-                "level_claimed": {"category": "other", "text": c["text"] + (" " + EXTRA[pid] if pid in EXTRA else "") + (" " + EXTRA5[pid] if pid in EXTRA5 else "") + (" " + EXTRA6[pid] if pid in EXTRA6 else ""), "design_ref": c["ref"]},
+                "level_claimed": {"category": "other", "text": c["text"] + (" " + EXTRA[pid] if pid in EXTRA else "") + (" " + EXTRA5[pid] if pid in EXTRA5 else "") + (" " + EXTRA6[pid] if pid in EXTRA6 else "") + (" " + EXTRA7[pid] if pid in EXTRA7 else ""), "design_ref": c["ref"]},
                 "level_note": c["note"],
                 "technique": c["technique"],
             }
@@ -317,7 +338,7 @@ def main():
         ],
         "checks": checks,
         "notes": "All checks: /venv/bin/python sa/run.py <ID> --tier quick|thorough. Exit 0 held / 1 VIOLATION / 2 ANALYSIS-ERROR. "
-        "Known findings: known_findings.json. Thorough tier adds the in-memory seeded-fault self-test of the checker.",
+        "Known findings: known_findings.json. Thorough tier adds the in-memory self-test of the checker: seeded faults that the named rule must report, benign variants that must stay silent, and eight behaviour-preserving rewrites of the whole tree (sa/metamorph.py) under which the findings must not change.",
         "not_applicable": [
             {"property_id": pid, "reason": NA_REASONS.get(pid, NOT_BUILT)} for pid in props if pid not in CLAIMS
         ],
